@@ -813,6 +813,26 @@ func (v *Visitor) addNext(s *df.AnalyzerState,
 			nextNodeAccessPaths = []string{""}
 		}
 	}
+	if len(nextNodeAccessPaths) == 0 && len(edgeInfo.RelPath) > 0 {
+		// The matching above is complete only when the access paths held by the visitor can be named by the labelled
+		// marks of the node the edge starts from. Otherwise the location of the data inside the value is unknown, and
+		// every flow of the value must be followed.
+		edgeSource := cur.Node
+		if intermediateNode != nil {
+			edgeSource = intermediateNode
+		}
+		if !hasLabelledMarks(edgeSource) {
+			for _, outPaths := range edgeInfo.RelPath {
+				for outPath := range outPaths {
+					if !addedPaths[outPath] {
+						addedPaths[outPath] = true
+						nextNodeAccessPaths = append(nextNodeAccessPaths, outPath)
+					}
+				}
+			}
+			sort.Strings(nextNodeAccessPaths)
+		}
+	}
 	// No matching access paths for this edge
 	if len(nextNodeAccessPaths) == 0 {
 		return que
@@ -869,6 +889,19 @@ func (v *Visitor) addNext(s *df.AnalyzerState,
 	que = append(que, nextVisitorNode)
 	v.seen[nextVisitorNode.Key()] = true
 	return que
+}
+
+// hasLabelledMarks returns true when the intra-procedural analysis tracks the node with one labelled mark for each
+// access path of its type (see dataflow.AccessPathsOfType): this is the case for the nodes of the kinds below when their
+// type has access paths. Only the unlabelled mark (access path "") flows from the other nodes.
+func hasLabelledMarks(node df.GraphNode) bool {
+	switch node.(type) {
+	case *df.ParamNode, *df.FreeVarNode, *df.CallNodeArg, *df.CallNode, *df.BoundVarNode, *df.AccessGlobalNode:
+		nodeType := node.Type()
+		return nodeType != nil && len(df.AccessPathsOfType(nodeType)) > 0
+	default:
+		return false
+	}
 }
 
 func (v *Visitor) manageEscapeContexts(s *df.AnalyzerState, cur *df.VisitorNode, nextNode df.GraphNode,
